@@ -96,7 +96,7 @@ PROPS = {
     },
     "C17": {
         "module": "Cdecao.Props.C17",
-        "theorems": ["Props.C17_rooms_le_opt"],
+        "theorems": ["Props.C17_rooms_le_opt", "Props.C17_rooms_nonbinding", "Props.C17_rooms_nonbinding_search"],
         "streams": ["roompairs", "solve-rooms", "node-rooms"],
     },
     "C18": {
@@ -127,8 +127,8 @@ LEVELS = {
             "note": _NODE + " " + _ENG + " InstOK (indices in range, each participant instructs at most one course) is the validity premise."},
     "C02": {"text": "Full statement is false for the code — Props.C02_full_counterexample proves it of the model on the 2-course witness with the three node results evaluated by the kernel, and the check replays the witness on the real code on every run (known finding F1, class: a participant with own choices instructs a non-fixed course). In the complement class Props.C02_partial is proved end to end: for every valid instance (decidable validb) without room list in which no participant with own choices instructs a non-fixed course (decidable noFreeableb), every T >= 1 and schedule, the finished search reports nothing only if no assignment satisfies the hard constraints, and otherwise an assignment satisfying them whose reported score is its documented score and is maximal. Real runs without rooms are compared with an exact brute-force optimum (<= 4 courses, <= 7 participants); a miss is the known finding only if the instance is in the F1 class AND the model of the unchanged algorithm gives the same answer; anything else is a violation.",
             "note": _NODE + " " + _ENG + " Partial with respect to the full property: inside the F1 class the property is false of the code (known finding), the theorem covers the complement."},
-    "C17": {"text": "Theorem Props.C17_rooms_le_opt: with any room list the reported score is the documented score of an assignment satisfying the hard constraints, hence at most any upper bound of the room-free optimum (all T, schedules). The non-binding half is checked on paired real runs (identical verdict, score and node-by-node identical search trees) and by the brute-force optimum.",
-            "note": _NODE + " The theorem `rooms_nonbinding` (identical node results) is not yet proved; that half is correspondence + paired-run oracle only (partial)."},
+    "C17": {"text": "Theorem Props.C17_rooms_le_opt: with any room list the reported score is the documented score of an assignment satisfying the hard constraints, hence at most any upper bound of the room-free optimum (all T, schedules). Props.C17_rooms_nonbinding: with a room list that cannot bind (every room among the I.C largest at least as large as any course can become, R.eff c n for n <= num_max + #instructors — no monotonicity of the float formula needed) every node result equals the one without room list; C17_rooms_nonbinding_search lifts it to identical reachable engine configurations for every thread count and schedule. Paired real runs (identical verdict, score and node-by-node identical search trees) and the brute-force optimum tie it to the code.",
+            "note": _NODE + " The effective size is the documented formula as evaluated in f32 (the paired-run generator includes the f32/f64 corner)."},
     "C03": {"text": "Theorem Props.C03: two finished runs of the engine model on a bounded tree agree on found/score for all thread counts and schedules. Props.C03_caobab discharges the premise for the caobab node solver (valid instances outside the F1 class, with or without rooms, any float behaviour); inside the F1 class Bounded stays a hypothesis and real runs under 3-6 seeded schedules x thread counts must agree.",
             "note": _ENG + " Partial only inside the F1 class (instructors with own choices of non-fixed courses), where `Bounded` is not proved."},
     "C04": {"text": "Theorems Props.C04_no_deadlock, C04_done_means_finished, C04_stats_step, C04_bounded_work and C04_stats_at_done (at AllDone: executed = no-solution + infeasible + feasible and generated = executed + bound, for every reachable run of the product system), C04_done_absorbing, over the engine model, all T >= 1 and schedules incl. spurious wake-ups; every real run under the shim is replayed through the model with all six counters compared, and the shim's deadlock detector and step budget watch the real code.",
